@@ -11,7 +11,11 @@ use num_integer::Integer;
 pub fn squfof(n: u64) -> Option<(u64, u64)> {
     // Loop over multipliers
     'kloop: for k in 1..=50 {
-        let nsqrt = isqrt(n * k);
+        // The multiplied number must fit in 64 bits.
+        let Some(nk) = n.checked_mul(k) else {
+            break;
+        };
+        let nsqrt = isqrt(nk);
         if nsqrt * nsqrt == n {
             return Some((nsqrt, nsqrt));
         }
@@ -20,7 +24,7 @@ pub fn squfof(n: u64) -> Option<(u64, u64)> {
 
         let mut p_prev = nsqrt;
         let mut q_prev = 1;
-        let mut q = n * k - nsqrt * nsqrt;
+        let mut q = nk - nsqrt * nsqrt;
         let mut q_sqrt = 0;
 
         for i in 1..=iters {
@@ -53,7 +57,7 @@ pub fn squfof(n: u64) -> Option<(u64, u64)> {
         let b = (nsqrt - p_prev) / q_sqrt;
         let mut p_prev = b * q_sqrt + p_prev;
         let mut q_prev = q_sqrt;
-        let mut q = (n * k - p_prev * p_prev) / q_prev;
+        let mut q = (nk - p_prev * p_prev) / q_prev;
         for i in 1..=iters {
             if i == iters {
                 // Failure
